@@ -30,18 +30,25 @@ MODELLED_NOT_VERIFIED = [
     "set_node_age_fn (tip dating callback) and stale age attributes before pybus_harvey_gamma are not modelled",
     "C17: inputs with None lengths are outside the statement for depths / root distances / lineages / forcing options: any ordinary "
     "refusal (TypeError, ValueError, ...) is compared as 'Undefined'",
+    "C17: a statistic's refusal of an out-of-domain tree is any of ValueError / TypeError / AssertionError / ZeroDivisionError "
+    "(pybus_harvey_gamma documents ValueError but raises AssertionError on most non-binary trees and ZeroDivisionError on 2 leaves; "
+    "treeness raises TypeError on None lengths and ZeroDivisionError on zero total length); IndexError / KeyError / AttributeError "
+    "or any other class is reported as a crash",
+    "C17: the default precision is read from the library on all sides (its value is not part of the statement; "
+    "default_precision_enables_check guards only that it enables the check)",
     "C17: out-of-domain inputs are compared only up to 'Undefined' for statistics (non-binary trees for Colless/gamma, 2 leaves for gamma "
     "and Colless-max, None lengths / zero total for treeness); num_lineages_at on zero-length edges is compared with the model only",
 ]
 EXPLANATION = ("Theorems (Props/C17.lean) about the definitions drv_c17 runs, numbers read in Q through Frac.toRat. Ages: ages_spec, "
                "ages_exact_spec, age_is_tip_distance, reject_iff_local, accepted_bound, reject_beyond_bound, reject_only_beyond_precision, "
                "check_disabled_spec, force_max/min/both_spec, default_precision_enables_check, returned_list_spec. Lengths from ages: "
-               "lengths_from_ages_roundtrip (within the precision for every accepted tree, exact on ultrametric ones; "
-               "lengths_from_ages_within, ..._roundtrip_partial), set_lengths_spec (arbitrary ages, every minimum, error flag). Root "
-               "distances: leaf_depths_spec, node_depths_spec (all nodes), minmax_spec, resolve_ages_spec. Lineages: lineages_spec, "
+               "lengths_from_ages_roundtrip (within the precision for every accepted tree, exact on ultrametric ones - for non-negative "
+               "lengths, minimum None or <= 0, error flag only with minimum 0; lengths_from_ages_within, ..._roundtrip_partial), set_lengths_spec (arbitrary ages, every minimum, error flag). Root "
+               "distances: leaf_depths_spec, node_depths_spec (all nodes), minmax_spec, resolve_ages_spec. Lineages: lineages_spec, lineages_spec_all (what is counted on zero/negative lengths), "
                "lineages_between_speciations (j+2 lineages between the j-th and (j+1)-th speciation). Statistics: length/sackin/nbar/"
-               "harmonic/colless/b1/treeness _eq_def, gamma_loop_eq_sums, gamma_eq_def (end to end incl. the lineage reading of the "
-               "intervals; gamma_eq_def_partial kept), stats_perm_invariant (child order for every statistic incl. gamma via "
+               "harmonic/colless/b1/treeness _eq_def, gamma_loop_eq_sums, gamma_succeeds (a value is returned on every binary exactly "
+               "ultrametric positive-length tree with >= 3 leaves, n = number of leaves, T > 0), gamma_eq_def (end to end incl. the lineage "
+               "reading of the intervals, conditional on success = gamma_succeeds; gamma_eq_def_partial kept), stats_perm_invariant (child order for every statistic incl. gamma via "
                "gamma_perm_invariant; ..._partial kept). The literal clause 'paths differing by more than the precision are rejected' is "
                "false of the code: evaluated by the oracle, known finding ultrametricity-drift-accumulates.")
 
@@ -86,7 +93,10 @@ def exc_name(e, dendropy, stat=False):
     if isinstance(e, error.UltrametricityError):
         return "UltrametricityError"
     if stat:
-        if isinstance(e, (TypeError, IndexError, AssertionError, ValueError, ZeroDivisionError)):
+        # a refusal is an exception the library raises (or lets arithmetic raise) for an input outside the statistic's domain:
+        # ValueError / TypeError as documented, AssertionError, ZeroDivisionError.  IndexError / KeyError / AttributeError
+        # and anything else escaping from inside is a crash, never a refusal.
+        if isinstance(e, (TypeError, AssertionError, ValueError, ZeroDivisionError)):
             return "Undefined"
         return "Internal(%s)" % type(e).__name__
     for cls in (TypeError, ZeroDivisionError, ValueError):
@@ -358,6 +368,15 @@ def op_setlen(ctx, D, case):
             if (new[i] is None) != (want[i] is None) or (new[i] is not None and F(new[i]) != F(want[i])):
                 ctx.fail("length_from_ages", "node %d: new length %s, parent age - age (min %s) is %s" % (i, new[i], ml, want[i]), case)
                 break
+        # round trip within the precision: an ACCEPTED tree with non-negative lengths (minimum None or <= 0) gets every
+        # length back within the precision in force (first children exactly is not required by the statement)
+        if case["ages"] is None and p is not None and not info.nonroot_none and (ml == "N" or F(ml) <= 0) \
+                and all(info.len[i] >= 0 for i in range(info.n)):
+            for i in range(info.n):
+                if info.par[i] is not None and abs(F(new[i]) - info.len[i]) > p:
+                    ctx.fail("roundtrip_within", "node %d: length %s became %s after calc_node_ages(precision %s) + "
+                             "set_edge_lengths_from_node_ages" % (i, orig[i], new[i], p), case)
+                    break
         # round trip: exactly ultrametric tree with non-negative lengths gets its lengths back
         if case["ages"] is None and info.exact_ultra and all(info.len[i] >= 0 for i in range(info.n)) and (ml == "N" or F(ml) <= 0):
             for i in range(info.n):
@@ -471,7 +490,18 @@ def op_lineages(ctx, D, case):
 
 
 def yule_colless(c, n):
+    """the code's arrangement (used to bring the model's exact components to the implementation's scale)"""
     return (c - n * math.log(n) - n * (0.5772156649015329 - 1.0 - math.log(2))) / n
+
+
+def yule_colless_def(c, n):
+    """oracle: Blum, Francois & Janson (2006): (I_c - E[I_c]) / n with E[I_c] ~ n ln n + (gamma - 1 - ln 2) n,
+    written independently of the code: I_c/n + 1 - gamma - ln(n/2), with Euler's constant from its series definition"""
+    return float(c) / n + 1.0 - EULER_FROM_SERIES - math.log(n / 2.0)
+
+
+# H_m - ln m - 1/(2m) + 1/(12 m^2) at m = 200000: Euler's constant to ~1e-15, from its definition rather than from the library
+EULER_FROM_SERIES = sum(1.0 / k for k in range(1, 200001)) - math.log(200000) - 1.0 / 400000 + 1.0 / (12 * 200000.0 ** 2)
 
 
 def op_stats(ctx, D, case):
@@ -528,7 +558,7 @@ def op_stats(ctx, D, case):
     if info.binary:
         C = sum(abs(info.nleaves[info.kids[i][0]] - info.nleaves[info.kids[i][1]]) for i in internal)
         cw = {"none": F(C), "max": (F(2 * C, (n - 1) * (n - 2)) if n >= 3 else "Undefined"),
-              "pda": C / float(n) ** 1.5, "yule": yule_colless(C, n)}
+              "pda": C / float(n) ** 1.5, "yule": yule_colless_def(C, n)}
     else:
         cw = {"none": "Undefined", "max": "Undefined", "pda": "Undefined", "yule": "Undefined"}
     specs.append(("colless_none", lambda t: tm.colless_tree_imbalance(t, normalize=None), "stat colless none " + T, cw["none"], None))
@@ -933,7 +963,7 @@ def run(ctx):
     rng = ctx.rng
     import time
     ctx.t0 = time.time()      # the exploration budget starts here (waiting for the shared build lock must not eat it)
-    ctx.set_budget(40, 640)
+    ctx.set_budget(33, 640)
     pending = []
     ntrees = ctx.pick(900, 20000)
     max_leaves = ctx.pick(14, 40)
